@@ -314,7 +314,23 @@ def run_case(case, ctx, sdir):
                         with warnings.catch_warnings():
                             warnings.simplefilter("ignore")
                             if case["format"] in ("v1_1", "odml"):
-                                XMLReader(ignore_errors=False, show_warnings=False).from_file(p)
+                                out_doc = XMLReader(ignore_errors=False, show_warnings=False).from_file(p)
+                                # content of the source: expected-1.1 model for 1.0 sources, own model for 1.1 XML
+                                src = [(sp, si) for sp, si in files.items()
+                                       if os.path.splitext(os.path.basename(sp))[0] == os.path.splitext(fn)[0]]
+                                if len(src) == 1 and src[0][1]["kind"] in ("v10-xml", "v11-xml"):
+                                    si = src[0][1]
+                                    if si["kind"] == "v10-xml" and case["format"] == "v1_1":
+                                        exp, alts, _, _ = v1map.expected(si["abstract"])
+                                        diffs = c15_convert.content_diffs(exp, alts, out_doc)
+                                    elif si["kind"] == "v11-xml":
+                                        diffs = model.diff(strip_model(si["model"]), strip_model(model.model_of(out_doc)))
+                                    else:
+                                        diffs = []
+                                    for item in diffs:
+                                        rec.violation("format_converter/output-content-differs:%s:%s:%s" % (
+                                            case["format"], si["kind"], item["field"]),
+                                            "%s: %s.%s expected %r got %r" % (fn, item["path"], item["field"], item["exp"], item["obs"]), case)
                             else:
                                 rf = {"ttl": "turtle", "ntriples": "nt", "nt11": "nt", "pretty-xml": "xml"}.get(case["format"], case["format"])
                                 rdflib.Graph().parse(p, format=rf)
